@@ -203,7 +203,8 @@ Lemma corr_sound : forall c render,
   ok c = true ->
   timestamp render t_defaultLayouts (c_utc c) (c_layout c) (c_flags c) (c_shape c) = c_observed c.
 Proof.
-  intros c render Hr Hok. rewrite <- gen_timestamp. unfold ok in Hok. unfold timestamp_gen.
+  intros c render Hr Hok. rewrite <- gen_timestamp. unfold ok in Hok. apply andb_prop in Hok.
+  destruct Hok as [Hok _]. unfold ok_cand in Hok. unfold timestamp_gen.
   destruct (lookup_cand (c_cands c) _ _) as [r|] eqn:E; [|discriminate].
   rewrite (Hr _ _ _ E). apply bytes_eqb_true, Hok.
 Qed.
@@ -239,4 +240,101 @@ Lemma timestamp_gen_spec : forall render utc_call layout_call flags sh,
                             (layout_choice_ref t_defaultLayouts (layout_state layout_call) flags)).
 Proof.
   intros render utc_call layout_call flags sh. rewrite gen_timestamp. exact (timestamp_spec _ _ _ _ _ _).
+Qed.
+
+(* ---- the layouts of the source and the domain of the parse-back theorem ---- *)
+Require Import Verif.Model.TimeFmt Verif.Proofs.TimeFmtP.
+
+(* every layout the flags can select reads back field by field; those that carry date, time
+   and zone are in the domain of the instant round trip; so is SetTimeFormat's default *)
+Lemma default_layouts_domain :
+  forallb (fun kl => layout_parses (snd kl) && implb (carries_instant (snd kl)) (layout_roundtrips (snd kl)))
+          t_defaultLayouts = true
+  /\ layout_parses c_TimeNano = true
+  /\ layout_roundtrips rfc3339nano = true
+  /\ (forall flags, layout_parses (layout_choice_ref t_defaultLayouts [] flags) = true)
+  /\ (forall flags, Z.land flags c_Ldate <> 0 -> Z.land flags c_Ltime <> 0 ->
+        layout_roundtrips (layout_choice_ref t_defaultLayouts [] flags) = true).
+Proof.
+  split; [vm_compute; reflexivity|]. split; [vm_compute; reflexivity|]. split; [vm_compute; reflexivity|].
+  split.
+  - intros flags. rewrite layout_table. unfold c_Ldatetimeflags.
+    destruct (land7_cases flags) as [E|[E|[E|[E|[E|[E|[E|E]]]]]]]; cbv zeta in E; rewrite E; vm_compute; reflexivity.
+  - intros flags Hd Ht. rewrite layout_table. unfold c_Ldatetimeflags.
+    assert (E1 : Z.land (Z.land flags 7) 1 = Z.land flags c_Ldate)
+      by (rewrite <- Z.land_assoc; reflexivity).
+    assert (E2 : Z.land (Z.land flags 7) 2 = Z.land flags c_Ltime)
+      by (rewrite <- Z.land_assoc; reflexivity).
+    destruct (land7_cases flags) as [E|[E|[E|[E|[E|[E|[E|E]]]]]]]; cbv zeta in E; rewrite E in *;
+      try (vm_compute; reflexivity); exfalso;
+      first [apply Hd; rewrite <- E1; reflexivity | apply Ht; rewrite <- E2; reflexivity].
+Qed.
+
+(* what a case accepted by Corr.C16.ok establishes about the MODELLED rendering: where the
+   instant is in format_time's domain, the text the model of Go's layout language produces for
+   the zone and layout the regenerated decisions select, framed, is the observed timestamp *)
+Lemma corr_sound_model : forall c, ok c = true ->
+  match model_text c with
+  | Some r => c_model c = true /\ timestamp_text (c_shape c) r = c_observed c
+  | None => c_model c = false
+  end.
+Proof.
+  intros c Hok. unfold ok in Hok. apply andb_prop in Hok. destruct Hok as [_ Hm].
+  unfold ok_model in Hm. unfold model_text.
+  destruct (zone_params c _) as [off ab].
+  destruct (format_time _ (c_sec c) (c_nsec c) off ab) as [r|].
+  - apply andb_prop in Hm. destruct Hm as [Hm _]. apply andb_prop in Hm. destruct Hm as [H1 H2].
+    split; [exact H1|]. apply bytes_eqb_true. exact H2.
+  - apply negb_true_iff. exact Hm.
+Qed.
+
+(* ---- the logger's timestamp reads back ---- *)
+(* the zone a choice means for an instant that came in a zone (own_off, own_ab) *)
+Definition chosen_off (z : zone) (own_off : Z) : Z := match z with ZoneUTC => 0 | ZoneOwn => own_off end.
+Definition chosen_abbrev (z : zone) (own_ab : bytes) : bytes :=
+  match z with ZoneUTC => utc_abbrev | ZoneOwn => own_ab end.
+
+(* whatever the logger was told: if the layout it ends up with is in the domain, the text reads back *)
+Lemma timestamp_parse_back : forall utc_call layout_call flags sec nsec own_off own_ab,
+  let z := zone_choice_ref (utc_state utc_call) flags in
+  let l := layout_choice_ref t_defaultLayouts (layout_state layout_call) flags in
+  let off := chosen_off z own_off in
+  layout_roundtrips l = true -> instant_ok sec nsec off -> zone_fits (tokens l) off = true ->
+  exists text,
+    format_time l sec nsec off (chosen_abbrev z own_ab) = Some text /\
+    parse_time l text = Some (sec, nsec / layout_unit (tokens l) * layout_unit (tokens l), off).
+Proof.
+  intros utc_call layout_call flags sec nsec own_off own_ab z l off Hl Hi Hz.
+  exact (parse_time_format l sec nsec off (chosen_abbrev z own_ab) Hl Hi Hz).
+Qed.
+
+(* no layout set, date and time flags on: every instant in a minute-aligned zone reads back,
+   to the second without the microseconds flag and to the microsecond with it *)
+Lemma default_timestamp_parse_back : forall utc_call flags sec nsec own_off own_ab,
+  Z.land flags c_Ldate <> 0 -> Z.land flags c_Ltime <> 0 ->
+  let z := zone_choice_ref (utc_state utc_call) flags in
+  let l := layout_choice_ref t_defaultLayouts [] flags in
+  let off := chosen_off z own_off in
+  let u := if Z.land flags c_Lmicroseconds =? 0 then 1000000000 else 1000 in
+  instant_ok sec nsec off -> off mod 60 = 0 ->
+  exists text,
+    format_time l sec nsec off (chosen_abbrev z own_ab) = Some text /\
+    parse_time l text = Some (sec, nsec / u * u, off).
+Proof.
+  intros utc_call flags sec nsec own_off own_ab Hd Ht z l off u Hi Ho.
+  assert (Hl : layout_roundtrips l = true) by (apply default_layouts_domain; assumption).
+  assert (Hfacts : zone_unit (tokens l) = 60 /\ zone_has_seconds (tokens l) = false /\ layout_unit (tokens l) = u).
+  { subst l u. rewrite layout_table. unfold c_Ldatetimeflags.
+    assert (E1 : Z.land (Z.land flags 7) 1 = Z.land flags c_Ldate) by (rewrite <- Z.land_assoc; reflexivity).
+    assert (E2 : Z.land (Z.land flags 7) 2 = Z.land flags c_Ltime) by (rewrite <- Z.land_assoc; reflexivity).
+    assert (E4 : Z.land (Z.land flags 7) 4 = Z.land flags c_Lmicroseconds) by (rewrite <- Z.land_assoc; reflexivity).
+    rewrite <- E4.
+    destruct (land7_cases flags) as [E|[E|[E|[E|[E|[E|[E|E]]]]]]]; cbv zeta in E; rewrite E in *;
+      try (vm_compute; repeat split; reflexivity); exfalso;
+      first [apply Hd; rewrite <- E1; reflexivity | apply Ht; rewrite <- E2; reflexivity]. }
+  destruct Hfacts as (Hzu & Hzs & Hlu).
+  assert (Hz : zone_fits (tokens l) off = true).
+  { unfold zone_fits. rewrite Hzu, Hzs. cbn [andb negb]. rewrite andb_true_r. apply Z.eqb_eq. exact Ho. }
+  destruct (parse_time_format l sec nsec off (chosen_abbrev z own_ab) Hl Hi Hz) as (text & Hf & Hp).
+  exists text. split; [exact Hf|]. rewrite Hp, Hlu. reflexivity.
 Qed.
